@@ -35,6 +35,8 @@ _DEPS = {  # included / cimported text: a change there must rebuild the dependan
 
 def _sources(repo):
     out = ['setup.py']
+    if os.path.isdir(os.path.join(repo, 'scripts')):
+        out += [os.path.join('scripts', f) for f in sorted(os.listdir(os.path.join(repo, 'scripts'))) if f.endswith('.py')]
     for d in ('pyiga', 'pyiga/codegen'):
         full = os.path.join(repo, d)
         for f in sorted(os.listdir(full)):
@@ -59,6 +61,7 @@ def ensure_build(repo=None, log=None):
     with open(os.path.join(CACHE, 'lock'), 'w') as lk:
         fcntl.flock(lk, fcntl.LOCK_EX)
         os.makedirs(os.path.join(tree, 'pyiga', 'codegen'), exist_ok=True)
+        os.makedirs(os.path.join(tree, 'scripts'), exist_ok=True)
         stamp_path = os.path.join(tree, '.stamp.json')
         try:
             stamp = json.load(open(stamp_path))
